@@ -84,7 +84,11 @@ def harvest(mol, es):
         "cis_energies": npy(getattr(mol, "cis_energies", None)),
         "osc": npy(getattr(mol, "oscillator_strength", None)),
         "nocc": npy(mol.nocc), "norb": npy(mol.norb),
+        "tdip": npy(getattr(mol, "transition_dipole", None)),
     }
+    nac = getattr(mol, "nac", None)
+    if isinstance(nac, dict):
+        out["nac"] = {"%d-%d" % k: npy(v) for k, v in nac.items()}
     return out
 
 
